@@ -48,6 +48,11 @@ def tree_hash():
             h.update(os.path.relpath(p, inc).encode())
             with open(p, "rb") as fh:
                 h.update(fh.read())
+    sh = os.path.join(VERIF, "shims")
+    for f in sorted(os.listdir(sh)):
+        if f.endswith((".hpp", ".h")):
+            with open(os.path.join(sh, f), "rb") as fh:
+                h.update(fh.read())
     for f in ("config/version.hpp.in", "CMakeLists.txt"):
         with open(os.path.join(REPO, f), "rb") as fh:
             h.update(fh.read())
